@@ -52,7 +52,7 @@ def run(rep, tier):
     rep.set_proof(c11.prove_shared(['Properties_C13.v']))
     rep.trusted += ['Coq 8.16.1 kernel', 'extraction + runner/main.ml', 'vlib/stimtext.py', 'vlib/equiv.py (reduction of equality in distribution to GF(2) systems)',
                     'harness/c14.cc (rewrite command)']
-    rep.assumptions += ['rewriting code other than the simplifier tables is tied by this oracle, not modelled in Coq', 'findings D5 D6 D16 D22 D23 D24 (fixed in /repo) are replayed from the corpus first', 'coordinates of flattened detectors are not compared here']
+    rep.assumptions += ['rewriting code other than the simplifier tables is tied by this oracle, not modelled in Coq', 'findings D5 D6 D16 D22 D23 D24 (fixed in /repo) are replayed from the corpus first', 'coordinates are compared through get_final_qubit_coords / get_detector_coordinates (tied to the unrolled program by C15)']
     rng = rep.rng()
     N = 720 if quick else 9000
     corpus = [('decomposed', 'MX !0'), ('decomposed', 'MRY !0'), ('decomposed', 'MXX !0 1'), ('decomposed', 'MZZ 0 !1'),
@@ -151,6 +151,13 @@ def run(rep, tier):
             tb = sorted(i.tag for i in all_instrs(body_b) if i.tag)
             if set(ta) != set(tb):
                 rep.violation(entry, 'wrong-result', text, 'tags of kept instructions changed: %s vs %s' % (ta[:5], tb[:5]))
+        # coordinates survive every rewrite: final qubit coordinates and (absolute) detector coordinates
+        if 'COORDS' in text or 'DETECTOR(' in text:
+            ca = [l for l in svh.request('cstats', [300], text) if l.startswith(('qcoord', 'dcoord '))]
+            cb = [l for l in svh.request('cstats', [300], text_b) if l.startswith(('qcoord', 'dcoord '))]
+            if ca != cb:
+                diff = [x for x in ca if x not in cb][:3] + ['...'] + [x for x in cb if x not in ca][:3]
+                rep.violation(entry, 'wrong-result', text, 'final qubit coordinates or detector coordinates differ between input and result: %s\n%s' % (diff, text_b))
         jobs.append(Job(kind, text, text_b, n, ir_a, ir_b, 'dem' if kind == 'inline_feedback' else 'all'))
     # ---------------- phase 1: run the originals ----------------
     inp = []
@@ -380,6 +387,9 @@ def gen_for(rng, gates, names, kind, nsweep):
             return None
         sp0 = stimtext.parse_spec_out(so)
         body = c03.add_deterministic_annotations(rng, body, sp0['rec'], nsweep)
+        if kind != 'time_reversed' and rng.random() < 0.5:
+            from checks import c18
+            body = c18.add_coordinates(rng, body, nq)
         if kind == 'time_reversed':
             body = [i for i in body if i.name != 'OBSERVABLE_INCLUDE' or rng.random() < 0.5]
     return stimtext.circuit_text(body)
